@@ -26,7 +26,7 @@ func vsymSnapshot() ClusterMetadata {
 		}
 		return t
 	}
-	return ClusterMetadata{Brokers: []protocol.MetadataBroker{{NodeID: 1, Host: "b", Port: 9092}}, ControllerID: 1, Topics: []protocol.MetadataTopic{mk("t", 2)}}
+	return ClusterMetadata{Brokers: []protocol.MetadataBroker{{NodeID: 1, Host: "b", Port: 9092}}, ControllerID: 1, Topics: []protocol.MetadataTopic{mk("t", 2), mk("tt", 1)}}
 }
 
 type vsymStoreObs struct {
@@ -134,6 +134,11 @@ func vsymApply(s Store, op int, off int64, meta string) vsymStoreObs {
 	case 22:
 		n, m, err := s.FetchConsumerOffset(ctx, "a:b", "t", 1)
 		o.num, o.str, o.errClass = n, m, vsymErrClass(err)
+	case 25:
+		o.errClass = vsymErrClass(s.UpdateOffsets(ctx, "tt", 0, off))
+	case 26:
+		n, err := s.NextOffset(ctx, "tt", 0)
+		o.num, o.errClass = n, vsymErrClass(err)
 	case 24:
 		o.errClass = vsymErrClass(s.UpdateTopicConfig(ctx, &metadatapb.TopicConfig{Name: "t", RetentionMs: off}))
 	case 23:
@@ -160,6 +165,14 @@ func VsymC17_Equivalent() {
 	e := newVsymEtcd()
 	etcd := &EtcdStore{client: e.client("store"), metadata: NewInMemoryStore(vsymSnapshot()), available: 1}
 	metas := []string{"", "m1"}
+	if vsym_Param("prehistory") == 1 {
+		// a fixed earlier history, applied to both stores: an offset on topic tt (whose name has
+		// the name of topic t as a prefix) and a consumer offset with metadata
+		for _, st := range []Store{mem, etcd} {
+			vsym_Assert(st.UpdateOffsets(context.Background(), "tt", 0, 7) == nil, "C17/prehistory")
+			vsym_Assert(st.CommitConsumerOffset(context.Background(), "g", "t", 0, 5, "m0") == nil, "C17/prehistory")
+		}
+	}
 	for i := 0; i < k; i++ {
 		op := vsym_Choose("op", vsym_Param("menu"))
 		off := vsym_Int64("off")
